@@ -38,6 +38,13 @@ def run(ctx):
     rule_P12(ctx, init, 'self')
     rule_P11(ctx)
     rule_P14(ctx)
+    from ..persist import rule_P15
+    k15 = rule_P15(ctx, 'Sampler', prog.func('Sampler.write_shell_update'), init, 'self')
+    ctx.require(k15 >= 15, 'P15 saw only %d updated keys (floor 15)' % k15)
+    for cname in ('NautilusBound', 'Union'):
+        c = prog.cls(cname)
+        from ..persist import _ctor_obj
+        rule_P15(ctx, cname, c.methods['update'], c.methods['read'], _ctor_obj(c.methods['read']))
     rule_P8(ctx)      # the emulator's hyper-parameters survive the round trip
     rule_K2(ctx)      # cached values never outlive the state they were computed from
     rule_F3(ctx)
